@@ -486,7 +486,11 @@ func TestVerif_C19_Schedules(t *testing.T) {
 					if !kit.WantCase(caseID) {
 						return kit.Schedule{Diverged: true}, true
 					}
-					s, cont := c19Case(t, v, r, caseID, n, kinds, c19Settle{pol, v})
+					var p kit.Policy = pol
+					if kit.Tier() != "quick" && idx%2 == 0 {
+						p = c19Settle{pol, v}
+					}
+					s, cont := c19Case(t, v, r, caseID, n, kinds, p)
 					if !cont {
 						stop = true
 					}
